@@ -132,6 +132,8 @@ claims = {
             "SQLite's application of the reassembled WAL is cut out (checkpointV3 stand-in, also in the native twin). Contiguity is what a listing can show.", "DESIGN.md 5 (C19), 7 (H7)"),
     "C16": ("The real applyNewLTXFiles and fillFollowGap are executed symbolically over every set of N files at levels 0-2 with symbolic ranges and every current TXID: each poll applies a valid chain from the current TXID, returns its end, never regresses, and N+1 polls reach the furthest TXID any chain reaches. The real applyLTXFile (real ltx decoder) is checked on a database file: pages at their offsets, size cut to the commit, only header bytes 18-19/24-27 rewritten, file flushed. The real follow loop with WriteTXIDFile/ReadTXIDFile runs over the file-system model with the process killed before every mutating operation: the sidecar always parses, is never ahead of the applied TXID, never regresses, and a restart resumes from it with a connecting file and converges.",
             "The follower's applied TXID in the kill harness is a ghost recorded at the applyLTXFile cut; kill points are file-system operations of the follower only.", "DESIGN.md 5 (C16)"),
+    "C05": ("The real Replica.syncOnce/sync/uploadLTXFile/calcPos/MaxLTXFileInfo/SetPos, DB.Pos/MaxLTX (real LTX decoder) and Compactor.Compact are executed under every assignment of {ok, fail-before, fail-mid-upload, fail-after-effect} to each client call for R faulty rounds followed by a fault-free round: the remote level 0 is 1..max after every call, a nil non-limited result means the local position is stored, the cached position is never ahead of the replica and is forgotten on error, the fault-free round catches up, stored bytes equal the local files; a failed compaction leaves no partial file and no cache entry for a missing file, and a retry writes the right range.",
+            "Faults are those of the ReplicaClient interface; the cached position is assumed not ahead of the database (see C04).", "DESIGN.md 5 (C05)"),
 }
 na_reasons = {
     "C12": "quantifies over goroutine interleavings and the Go memory model; a sequential SSA symbolic interpreter cannot soundly decide races or deadlocks and no concurrency-aware engine for Go exists in this image (DESIGN.md 6)",
@@ -203,6 +205,22 @@ props["C16"] = {
     ],
     "stubs": ["ReplicaClient mock (sorted iterator with seek)", "applyLTXFile recorder (source rewrite, same stand-in natively)", "file-system model (symfs) with kill points", "time.Ticker always ready", "log/slog no-op"],
     "outside": ["page-level equality with an ordinary restore on a real database", "the exclusive byte-range lock against concurrent SQLite readers", "Restore's snapshot-bounds validation of the sidecar TXID before resuming", "more than N files per poll harness"],
+}
+
+props["C05"] = {
+    "level": "model_checking", "validate": 6,
+    "runs": [
+        run("root", "VxC05Sync", {"N": 2, "R": 2}, {"N": 3, "R": 3}),
+        run("root", "VxC05Limited", {"N": 3}, {"N": 4}),
+        run("root", "VxC05Compact", {"K": 2}, {"K": 3}),
+    ],
+    "assumptions": [
+        "each ReplicaClient call independently draws one of: ok, error before any effect, error after consuming part of the upload, error after the effect took place; listings and downloads: ok or error",
+        "the replica initially holds a gapless level-0 prefix of what is stored locally; the cached replica position is unknown or equal to the true remote maximum (a cached position ahead of the database is the run-time reset scenario of C04/H3, not generated here)",
+        "local level-0 files are valid LTX files (DB.Pos verifies the newest with the real decoder; codec model as in C06)",
+    ],
+    "stubs": ["ReplicaClient mock with per-call fault decisions and stored bytes", "file-system model for the local shadow files", "prometheus / slog no-op", "io.Pipe buffer model"],
+    "outside": ["more than N local files / R faulty rounds", "faults of the local file system (C11/C03)", "retry pacing (DB.syncReplicaWithRetry back-off timers)"],
 }
 
 rewrites = [
